@@ -170,13 +170,15 @@ Definition d_input : dec input := fun s =>
   | SList [SAtom "in_fn_err"; a; v; u; au] => do h <- d_head a v u au; Some (InFnErr h)
   | SList [SAtom "in_trait"; a; v; u; au; t] => do h <- d_head a v u au; do t' <- d_trait t; Some (InTrait h t')
   | SList [SAtom "in_trait_err"; a; v; u; au] => do h <- d_head a v u au; Some (InTraitErr h)
-  | SList [SAtom "in_impl"; a; v; u; au; tp; st; body; sigs] =>
+  | SList [SAtom "in_impl"; a; v; u; au; tp; st; body; sigs; fns] =>
       do h <- d_head a v u au; do tp' <- d_toks tp; do st' <- d_toks st; do b' <- d_toks body;
-      do sg' <- d_list "sigs" d_sig_at sigs; Some (InImpl h tp' st' b' sg')
+      do sg' <- d_list "sigs" d_sig_at sigs; do fns' <- d_opt (d_list "names" d_str) fns;
+      Some (InImpl h tp' st' b' sg' fns')
   | SList [SAtom "in_impl_err"; a; v; u; au] => do h <- d_head a v u au; Some (InImplErr h)
-  | SList [SAtom "in_mod"; a; v; u; au; n; body; sigs] =>
+  | SList [SAtom "in_mod"; a; v; u; au; n; body; sigs; fns] =>
       do h <- d_head a v u au; do n' <- d_str n; do b' <- d_toks body;
-      do sg' <- d_list "sigs" d_sig_at sigs; Some (InMod h n' b' sg')
+      do sg' <- d_list "sigs" d_sig_at sigs; do fns' <- d_opt (d_list "names" d_str) fns;
+      Some (InMod h n' b' sg' fns')
   | SList [SAtom "in_mod_err"; a; v; u; au] => do h <- d_head a v u au; Some (InModErr h)
   | SList [SAtom "in_head_err"] => Some InHeadErr
   | _ => None
